@@ -2,6 +2,7 @@ package sim
 
 import (
 	"fmt"
+	"strings"
 	"testing"
 	"testing/synctest"
 	"time"
@@ -81,3 +82,11 @@ func SimNow() float64 { return time.Since(Epoch).Seconds() }
 // Recycle is set by a world when this process should not execute further plans although nothing went wrong (finished
 // runs left too many goroutines of the code under test behind): exploration ends early, results are reported as usual.
 var Recycle bool
+
+// LeftoverOnly reports whether a bubble failure says no more than this: the root function - which invokes every
+// operation of the code under test and waits for it - has returned, and goroutines that are blocked for ever remain. Every
+// operation completed, so this is no standstill of an operation: code may legitimately leave a goroutine behind (a
+// worker that serves a channel nobody closes, a connection kept for later).
+func LeftoverOnly(fail string) bool {
+	return strings.Contains(fail, "main bubble goroutine has exited")
+}
